@@ -34,6 +34,9 @@ def run(ctx):
     ctx.each(r03d, ctx, repo)
     from . import c15 as _c15
 
+    from .c02 import r02d
+
+    ctx.each(r02d, ctx, repo, K.types(repo))  # the documented rules are linear in the population size: the clamp in Compartment.update may only replace negative values, not small positive ones
     ctx.each(_c15.r15a, ctx, repo)  # a run ends at the requested end year: functions that shorten sim_end temporarily restore it on every path
     ctx.each(r03f, ctx, repo)
     ctx.each(discretise.snap_tolerance_rule, ctx, repo, "R03e", [("project", "_n_steps")])
